@@ -186,7 +186,7 @@ func (P *Program) Explore(cfg RunConfig) *RunResult {
 					stop = true
 					res.Incomplete = fmt.Sprintf("time budget reached with %d prefixes pending", len(stack))
 				}
-				if cfg.Verbose && res.Paths%200 == 0 {
+				if cfg.Verbose && res.Paths%5000 == 0 {
 					fmt.Printf("  .. %d paths, %d pending, %d fails\n", res.Paths, len(stack), len(res.Fails))
 				}
 				mu.Unlock()
